@@ -113,6 +113,22 @@ structure AMap where
   active  : Bool := false
   deriving DecidableEq, Repr
 
+/-- a running first-generation (x/auction) surplus or debt auction of the collector entry `(app, asset)`.
+`lot` is the amount of the COLLECTOR asset at stake: the `SellToken` of a surplus auction (already taken out of the collector by
+`GetAmountFromCollector`), the `ExpectedUserToken` of a debt auction (paid in by the bidder). `other` is an amount of the secondary
+asset: the standing bid of a surplus auction, the `ExpectedMintedToken` of a debt auction. `bidder = none` ⇔ status "no bids". -/
+structure Auc1 where
+  id      : Nat
+  app     : Nat
+  asset   : Nat
+  surplus : Bool
+  lot     : Int
+  other   : Int
+  bidder  : Option Nat
+  endT    : Int
+  bidEndT : Int
+  deriving DecidableEq, Repr
+
 structure State where
   bank    : Bank := []
   lockers : Store Nat Locker := []
@@ -129,6 +145,11 @@ structure State where
   killOn  : List Nat := []                  -- apps whose kill switch (`BreakerEnable`) is on
   amap    : Store (Nat × Nat) AMap := []    -- auction mapping of the collector
   englishOn : List Nat := []                -- apps with `LiquidationWhiteListing.IsEnglishActivated`
+  auctions : List Auc1 := []                -- running first-generation surplus / debt auctions, in id order
+  lastAuc : Nat := 0                        -- x/auction `GetAuctionID`
+  aucDur  : Int := 0                        -- AuctionParams.AuctionDurationSeconds (same for every app here)
+  bidDur  : Int := 0                        -- AuctionParams.BidDurationSeconds
+  bidFactor : Dec := 0                      -- CollectorLookupTableData.BidFactor (same for every entry here)
   deriving Repr, DecidableEq
 
 def bal (s : State) (a : Acct) (d : Nat) : Int := s.bank.bal a d
@@ -297,6 +318,136 @@ def activate (s : State) (gen2 : Bool) : List (Nat × Nat) → State
     let r := activateOne s gen2 k
     if r.2 then r.1 else activate r.1 gen2 ks
 
+/-! ## first-generation surplus / debt auctions: bids, restart, every close path (x/auction/keeper/surplus.go, debt.go)
+
+Only the collector-asset side is booked: the secondary asset (bids of a surplus auction, minted tokens of a debt auction) never
+touches the collector and lies outside the projection. -/
+
+def dropAuc (s : State) (a : Auc1) : State := { s with auctions := s.auctions.filter (·.id != a.id) }
+
+/-- what `closeSurplusAuction` (surplus.go:190-283) / `closeDebtAuction` (debt.go:189-270) move, before the flags are cleared:
+surplus — emergency shutdown with a standing bid: bid refunded, lot BACK to the collector, `SetNetFeeCollectedData(app, AssetOutId, lot)`;
+          winner (no shutdown): lot to the winner, bid burnt, the collector untouched;
+          no bid (only reached under shutdown): lot back to the collector and recorded;
+debt    — emergency shutdown with bids: the bidder's payment refunded, collector untouched;
+          winner: tokens minted to the winner, the payment goes to the collector, `SetNetFeeCollectedData(app, AssetInId, payment)`;
+          no bids: nothing moves. -/
+def closeMoves (s : State) (a : Auc1) (esm : Bool) : Option State :=
+  let toCollector : Option State :=
+    (s.bank.send .auction .collector a.asset a.lot).bind fun b => setNetFee { s with bank := b } (a.app, a.asset) a.lot
+  let toUser (u : Nat) : Option State := (s.bank.send .auction (.user u) a.asset a.lot).map fun b => { s with bank := b }
+  if a.surplus then
+    match a.bidder with
+    | none => toCollector
+    | some u => if esm then toCollector else toUser u
+  else
+    match a.bidder with
+    | none => some s
+    | some u => if esm then toUser u else toCollector
+
+/-- a close: the moves, `makeFalseForFlags` on the entry, the auction record deleted -/
+def closeAuc (s : State) (a : Auc1) (esm : Bool) : Option State :=
+  (closeMoves s a esm).bind fun s1 => (clearActive s1 (a.app, a.asset)).map fun s2 => dropAuc s2 a
+
+/-- `RestartSurplus` / `RestartDebt`: an ended auction without bids gets a new window; nothing moves -/
+def restartAuc (s : State) (a : Auc1) (now : Int) : State :=
+  { s with auctions := s.auctions.map fun b => if b.id = a.id then { b with endT := now + s.aucDur, bidEndT := now + s.aucDur } else b }
+
+/-- `SurplusAuctionClose` / `DebtAuctionClose` (surplus.go:148-166, debt.go:144-163) over the auctions `as` of the app that were
+running when the sweep began: ended (or emergency shutdown) ⇒ restart when there are no bids and no shutdown, otherwise close.
+`none` = an error: the activator's unit is rolled back. -/
+def sweepAucs (s : State) (app : Nat) (surplus esm : Bool) (now : Int) : List Auc1 → Option State
+  | [] => some s
+  | a :: as =>
+    if a.app = app ∧ a.surplus = surplus ∧ (now > a.endT ∨ now > a.bidEndT ∨ esm = true) then
+      if a.bidder = none ∧ esm = false then sweepAucs (restartAuc s a now) app surplus esm now as
+      else match closeAuc s a esm with
+        | none => none
+        | some s1 => sweepAucs s1 app surplus esm now as
+    else sweepAucs s app surplus esm now as
+
+/-- after a first-generation start decision raised the entry's flag: the auction record (`StartSurplusAuction` / `StartDebtAuction`) -/
+def recordStart (s r : State) (k : Nat × Nat) (now : Int) : State :=
+  match Store.get s.amap k, Store.get r.amap k, Store.get s.collk k with
+  | some m, some m', some c =>
+    if m.active = false ∧ m'.active = true then
+      let a : Auc1 := ⟨r.lastAuc + 1, k.1, k.2, m.surplus, c.lot, (if m.surplus then 0 else c.debtLot), none,
+                       now + s.aucDur, now + s.aucDur⟩
+      { r with lastAuc := r.lastAuc + 1, auctions := r.auctions ++ [a] }
+    else r
+  | _, _, _ => r
+
+/-- One entry of the first-generation begin-blocker (x/auction/abci.go:15-76): `data` is the entry as read at the TOP of the block
+(`snap`), the emergency status is read per entry; the surplus activator and the debt activator are separate atomic units.
+Active at the top ⇒ the close sweep over ALL auctions of that kind of the app; inactive ⇒ the start decision (`activateOne`). -/
+def unit1 (s : State) (active kind : Bool) (now : Int) (k : Nat × Nat) : State :=
+  if active then (sweepAucs s k.1 kind (decide (k.1 ∈ s.esmOn)) now s.auctions).getD s
+  else recordStart s (activateOne s false k).1 k now
+
+def begin1Entry (s : State) (snap : Store (Nat × Nat) AMap) (now : Int) (k : Nat × Nat) : State :=
+  match Store.get snap k with
+  | none => s
+  | some d =>
+    let s1 := if d.surplus then unit1 s d.active true now k else s
+    if d.debt then unit1 s1 d.active false now k else s1
+
+def begin1Loop (s : State) (snap : Store (Nat × Nat) AMap) (now : Int) : List (Nat × Nat) → State
+  | [] => s
+  | k :: ks => begin1Loop (begin1Entry s snap now k) snap now ks
+
+/-- `change := BidFactor.MulInt(x).Ceil().TruncateInt()` -/
+def bidChange (f : Dec) (x : Int) : Int := Dec.truncateInt (Dec.ceil (Dec.mulInt f x))
+
+/-- the accepted bid becomes the standing one; the bid window ends `BidDurationSeconds` later, capped by the auction's end -/
+def placeBid (b : Auc1) (u : Nat) (x : Int) (t : Int) : Auc1 :=
+  { b with bidder := some u, other := x, bidEndT := (if t > b.endT then b.endT else t) }
+
+/-- surplus: the first bid must exceed the (zero) opening bid, a later one must reach standing bid + ceil(bidFactor · standing bid) -/
+def surplusBidOk (f : Dec) (a : Auc1) (amt : Int) : Bool :=
+  match a.bidder with
+  | some _ => decide (a.other + bidChange f a.other ≤ amt)
+  | none => decide (a.other < amt)
+
+/-- debt: the first bid may not ask for more than the auctioned amount, a later one at most the standing ask − ceil(bidFactor · ask) -/
+def debtBidOk (f : Dec) (a : Auc1) (bid : Int) : Bool :=
+  match a.bidder with
+  | some _ => decide (bid ≤ a.other - bidChange f a.other)
+  | none => decide (bid ≤ a.other)
+
+/-- the previous bidder of a debt auction gets his payment back -/
+def refundPrev (b : Bank) (a : Auc1) : Option Bank :=
+  match a.bidder with
+  | some v => Bank.send b .auction (.user v) a.asset a.lot
+  | none => some b
+
+def setBid (s : State) (id u : Nat) (x now : Int) : List Auc1 :=
+  s.auctions.map fun b => if b.id = id then placeBid b u x (now + s.bidDur) else b
+
+/-- `MsgPlaceSurplusBid` (surplus.go:285-346); the bid itself is in the secondary asset (not booked here) -/
+def surplusBid (s : State) (app id u : Nat) (amt now : Int) : Option State :=
+  if id = 0 ∨ amt < 0 then none else         -- ValidateBasic
+  match s.auctions.find? (fun a => a.id == id && a.app == app && a.surplus) with
+  | none => none
+  | some a =>
+    if surplusBidOk s.bidFactor a amt then some { s with auctions := setBid s id u amt now } else none
+
+/-- `MsgPlaceDebtBid` (debt.go:274-345): the bidder pays the expected collector-asset amount into the auction account, the previous
+bidder is refunded; the bid is the amount of secondary asset he is willing to take -/
+def debtBid (s : State) (app id u : Nat) (bid exp now : Int) : Option State :=
+  if id = 0 ∨ bid ≤ 0 ∨ exp < 0 then none else   -- ValidateBasic: the bid must be positive
+  match s.auctions.find? (fun a => a.id == id && a.app == app && !a.surplus) with
+  | none => none
+  | some a =>
+    if exp ≠ a.lot then none
+    else if debtBidOk s.bidFactor a bid then
+      match s.bank.send (.user u) .auction a.asset a.lot with
+      | none => none
+      | some b1 =>
+        match refundPrev b1 a with
+        | none => none
+        | some b2 => some { s with bank := b2, auctions := setBid s id u bid now }
+    else none
+
 /-! ## operations -/
 
 inductive Op where
@@ -319,6 +470,9 @@ inductive Op where
   | v2DebtClose (app asset : Nat) (c d : Int)             -- CloseEnglishAuction, debt branch: receives d, records c
   | config (c : Cfg)                                      -- governance / emergency configuration
   | activate (gen2 : Bool) (keys : List (Nat × Nat))      -- start decisions of one begin-block (x/auction resp. liquidationsV2)
+  | begin1 (now : Int) (keys : List (Nat × Nat))          -- the whole first-generation begin-blocker: starts, restarts, closes
+  | surplusBid (app id u : Nat) (amt now : Int)           -- MsgPlaceSurplusBid
+  | debtBid (app id u : Nat) (bid exp now : Int)          -- MsgPlaceDebtBid
   deriving Repr
 
 /-- how one iteration of `LockerIterateRewards` ends: `stop` = `return` (reward-calculation error), `next paid` = the loop goes
@@ -484,6 +638,9 @@ def step (s : State) : Op → Option State
     ((creditCollector s asset d).bind fun s1 => setNetFee s1 (app, asset) c).bind fun s2 => clearActive s2 (app, asset)
   | .config c => some (applyCfg s c)
   | .activate gen2 keys => some (activate s gen2 keys)
+  | .begin1 now keys => some (begin1Loop s s.amap now keys)
+  | .surplusBid app id u amt now => surplusBid s app id u amt now
+  | .debtBid app id u bid exp now => debtBid s app id u bid exp now
 
 /-- The two closes as they would read after the small repair proposed in notes/C13.md (surplus: hand out the lot that
 `GetAmountFromCollector` already moved to the first-generation auction account and leave the record alone; debt: record what
